@@ -16,11 +16,10 @@ import (
 
 // Aliases for everything that needs no scheduling.
 type (
-	Locker    = sync.Locker
-	Once      = sync.Once
-	WaitGroup = sync.WaitGroup
-	Map       = sync.Map
-	Pool      = sync.Pool
+	Locker = sync.Locker
+	Once   = sync.Once
+	Map    = sync.Map
+	Pool   = sync.Pool
 )
 
 // OnceFunc and friends are passed through.
